@@ -211,7 +211,16 @@ class Run:
                 src_ent = ents2[c["src"]] if c.get("seid") == "f" else ents[c["src"]]
                 if c.get("seid") == "k":
                     src_ent = src_ent.children[0]
-                if cfg.get("badpair") and pairs:
+                if c.get("rejected"):
+                    # a connect() call that names only an attribute that does not exist: mosaik
+                    # refuses it, the script handles the error -- nothing may remain of it
+                    from mosaik.exceptions import ScenarioError
+                    try:
+                        w.connect(src_ent, dst_ent, ("zz_missing", c.get("dattr") or "ti"), **kw)
+                        raise AssertionError("connect() accepted an unknown source attribute")
+                    except ScenarioError:
+                        pass
+                elif cfg.get("badpair") and pairs:
                     # the user's connect() call names one more pair that mosaik has to reject (an
                     # attribute that does not exist) and handles the error: the valid pairs of the
                     # call must be connected exactly as if they had been given alone
